@@ -236,8 +236,36 @@ where
         pop_back_with_prefix: false,
         spilled: false,
     };
+    // A second deque with a life of its own (a consumed prefix, a backing container that has been
+    // longer): every few operations it becomes a copy of the first through `clone_from`.
+    let mut spare: SlidingDeque<C> = SlidingDeque::new();
+    for v in 0..6u8 {
+        spare.push_back(T::of(v));
+    }
+    spare.advance(2);
     for (i, op) in case.ops.iter().enumerate() {
         step(&mut deque, &mut model, op, inline_cap, &mut stats).map_err(|f| Fail::new(f.sig, format!("op #{i} {op:?}: {}", f.msg)))?;
+        if i % 4 == 3 {
+            let r = panics::catch(|| {
+                spare.clone_from(&deque);
+                let same = &*spare == &*deque && spare.len() == model.len() && spare.front().copied() == model.front().copied() && spare.back().copied() == model.back().copied();
+                // ... and goes its own way again.
+                spare.push_back(T::of(i as u8));
+                let popped = spare.pop_front();
+                spare.advance(i % 3);
+                (same, popped)
+            });
+            match r {
+                Err(p) => return Err(Fail::new(format!("panic:clone_from:{}", p.signature()), format!("after op #{i}: clone_from onto a used deque panicked: {}", p.describe()))),
+                Ok((false, _)) => return Err(Fail::new("clone_from", format!("after op #{i}: clone_from onto a used deque does not give a copy of the source"))),
+                Ok((true, popped)) => {
+                    let want = model.front().copied().or(Some(T::of(i as u8)));
+                    if popped != want {
+                        return Err(Fail::new("clone_from", format!("after op #{i}: the copy made by clone_from pops {popped:?}, expected {want:?}")));
+                    }
+                }
+            }
+        }
     }
     // A clone is an independent, equal deque.
     let copy = deque.clone();
@@ -486,7 +514,7 @@ fn replay(_ctx: &Ctx, _group: &str, case: &Value) -> CaseResult {
 pub fn def() -> PropDef {
     PropDef {
         id: "C15",
-        rule: "Cases are operation sequences on SlidingDeque over Vec, SmallVec<[u8;2]> and SmallVec<[u8;4]> (and, less often and one level less deep in part 1, over item types other than a byte: the zero-sized (), u64, [u8;24] and the padded pair (u32,u16), in Vec and SmallVec backings), compared step by step with std::collections::VecDeque (return values, contiguous view, len, is_empty, front, back) plus the space bound read through the verif_rep hook. Part 1 enumerates every sequence over a 10-symbol alphabet up to max_depth by depth-first search with shared prefixes; part 2 draws random sequences of up to 200 operations (optionally starting from a pre-filled container) with proptest; part 3 (large) starts from 1000..300000 elements (sizes around 2^16, 2^17, 2^18), consumes half of them +-3, then pops, pushes and advances at both ends. Non-trivial: the sequence contains a pop_back executed while the consumed prefix is non-zero, or an inline-to-heap transition of the small-vector backing. Distinct: by enumeration for part 1, by hash of the serialised case for part 2.",
+        rule: "Cases are operation sequences on SlidingDeque over Vec, SmallVec<[u8;2]> and SmallVec<[u8;4]> (and, less often and one level less deep in part 1, over item types other than a byte: the zero-sized (), u64, [u8;24] and the padded pair (u32,u16), in Vec and SmallVec backings), compared step by step with std::collections::VecDeque (return values, contiguous view, len, is_empty, front, back) plus the space bound read through the verif_rep hook. Part 1 enumerates every sequence over a 10-symbol alphabet up to max_depth by depth-first search with shared prefixes; part 2 draws random sequences of up to 200 operations (optionally starting from a pre-filled container) with proptest; part 3 (large) starts from 1000..300000 elements (sizes around 2^16, 2^17, 2^18), consumes half of them +-3, then pops, pushes and advances at both ends. In the random groups, after every fourth operation a second deque with a consumed prefix of its own becomes a copy of the first through clone_from and must equal it. Non-trivial: the sequence contains a pop_back executed while the consumed prefix is non-zero, or an inline-to-heap transition of the small-vector backing. Distinct: by enumeration for part 1, by hash of the serialised case for part 2.",
         assumptions: &[
             "harness built with debug assertions on, so the crate's own check_rep assertions are active",
             "VecDeque is the reference double-ended queue",
